@@ -2072,10 +2072,13 @@ static void _conn_sm_handle_stanza(xmpp_conn_t *const conn,
     unsigned long ul_h;
 
     ns = xmpp_stanza_get_ns(stanza);
-    if (ns && strcmp(ns, XMPP_NS_SM) != 0)
-        ++conn->sm_state->sm_handled_nr;
-    else {
-        name = xmpp_stanza_get_name(stanza);
+    name = xmpp_stanza_get_name(stanza);
+    if (ns && strcmp(ns, XMPP_NS_SM) != 0) {
+        /* XEP-0198: only <message/>, <presence/> and <iq/> are counted */
+        if (name && (strcmp(name, "message") == 0 ||
+                     strcmp(name, "presence") == 0 || strcmp(name, "iq") == 0))
+            ++conn->sm_state->sm_handled_nr;
+    } else {
         if (!name)
             return;
         if (strcmp(name, "r") == 0) {
